@@ -77,3 +77,74 @@ def run_c19(prop, tier, seed, report, scratch):
     report.assumptions += ["concrete clock times, clock ids and CIDs are order-isomorphic to the rank triples of the model "
                            "(several palettes incl. boundary and negative values)"]
     os.remove(trace)
+
+
+C20_P = ["C20_HasIsPresent", "C20_GetIsStable", "C20_AbsentIsAbsent", "C20_CreateStores",
+         "C20_IdentityStable", "C20_SignaturesVerify"]
+
+
+def run_c20(prop, tier, seed, report, scratch):
+    binpath = build_harness(scratch)
+    specdir = stage_spec(scratch)
+    q = tier == "quick"
+    plans = [dict(name="ks2", NK=2, Names={"a", "b"}, MaxOps=5 if q else 6, sim=None),
+             dict(name="ksSim", NK=3, Names={"a", "b", "c", "d"}, MaxOps=40, sim=(10 if q else 150, 40))]
+    if not q:
+        plans.insert(1, dict(name="ks3", NK=3, Names={"a", "b", "c"}, MaxOps=5, sim=None))
+    states = transitions = traces = 0
+    samples = []
+    for plan in plans:
+        write_mc(specdir, "Keystore", {"NK": plan["NK"], "Names": plan["Names"], "MaxOps": plan["MaxOps"]},
+                 invariants=["C20_CacheCoherent", "C20_HasIsPresent", "C20_GetIsStable"],
+                 properties=["C20_KeysNeverVanish"], view="View", constraint="Export", name=plan["name"])
+        extra = ()
+        if plan["sim"]:
+            extra = ("-simulate", "num=%d" % plan["sim"][0], "-depth", str(plan["sim"][1]), "-seed", str(seed))
+        res = run_tlc(specdir, plan["name"], workers=1 if plan["sim"] else 8, timeout=1500, extra=extra)
+        if res.crashed and not res.violated:
+            raise Inconclusive("TLC failed on Keystore.tla:\n" + res.out[-3000:])
+        if res.violated:
+            report.notes.append("model-level counterexample in Keystore.tla: %s" % res.violated)
+        scripts = res.hist_lines()
+        mode = "last"
+        if plan["sim"]:
+            import fam_l
+            scripts = fam_l.maximal_only(scripts)
+            mode = "all"
+        else:
+            states += res.distinct
+            transitions += res.generated
+        scp = os.path.join(scratch, plan["name"] + ".scripts")
+        with open(scp, "w") as f:
+            f.write("\n".join(scripts) + "\n")
+        trace = os.path.join(scratch, plan["name"] + ".trace.ndjson")
+        p = run([binpath, "ksrun", "-scripts", scp, "-out", trace, "-nk", str(plan["NK"]), "-mode", mode,
+                 "-workers", "16"], timeout=1500)
+        if p.returncode != 0:
+            raise Inconclusive("ksrun failed:\n" + p.stdout[-3000:])
+        log("  %s: TLC %d generated / %d distinct, %d scripts; %s" %
+            (plan["name"], res.generated, res.distinct, len(scripts), p.stdout.strip().splitlines()[-1]))
+        n, viols, bad = validate_traces(specdir, "Trace_Keystore", trace, ["H_WellFormed"] + C20_P + ["M_Store"], [], scratch)
+        if bad:
+            raise Inconclusive(bad)
+        traces += n
+        by_sid = {i + 1: json.loads(s) for i, s in enumerate(scripts)}
+        for op, rec in viols:
+            if op.startswith("H_"):
+                raise Inconclusive("keystore trace not well formed: " + json.dumps(rec)[:400])
+            if op.startswith("M_"):
+                report.add_drift("%s on op %s" % (op, rec.get("op") if rec else "?"))
+                continue
+            desc = {"operator": op, "op": rec.get("op") if rec else None}
+            report.add_violation(desc, {"family": "keystore", "record": rec, "script": by_sid.get(rec.get("sid")) if rec else None,
+                                        "nk": plan["NK"]})
+        rnd = random.Random(seed)
+        for s in rnd.sample(scripts, min(2, len(scripts))):
+            samples.append({"plan": plan["name"], "history": json.loads(s)})
+        os.remove(trace)
+    report.coverage.update({"states": states, "transitions": transitions, "traces_validated_against_impl": traces,
+                            "layerP_operators": C20_P, "layerM_operators": ["M_Store"], "samples": samples,
+                            "exhaustive": True})
+    report.assumptions += ["LRU eviction is realised by touching the ids to keep and creating 128-|keep| filler keys "
+                           "through the instance; restart by a new NewKeystore over the same datastore",
+                           "ids are created at most once (the property is about keys once created)"]
